@@ -267,6 +267,105 @@ def sckey(b):
     return tuple((x + 128) % 256 for x in b)
 
 
+# ---- an independent reading of "the rule matched the spelling" (Python's re, on the fragment of regex syntax where it
+# and boost::regex's Perl syntax mean the same): erase = the pattern matches the WHOLE spelling (boost::regex_match);
+# xform/derive/fuzz/abbrev = the pattern occurs somewhere in it (boost::regex_replace); xlit = it contains a mapped character
+_LIT = frozenset(b"abcdefghijklmnopqrstuvwxyzABCDEFGHIJKLMNOPQRSTUVWXYZ0123456789;,_' =@#%&~\"<>:!")
+_CLS = frozenset(b"abcdefghijklmnopqrstuvwxyzABCDEFGHIJKLMNOPQRSTUVWXYZ0123456789;,_")
+_re_cache = {}
+
+
+def safe_regex(pat):
+    """literals, `.`, `[..]` / `[^..]` over plain characters, groups, `|`, one of `* + ?` after an atom, `^`, `$`;
+    no empty alternative, no escapes, braces, ranges, lazy / possessive quantifiers"""
+    i, n, depth = 0, len(pat), 0
+    can_quant = False          # the previous token is an atom a quantifier may follow
+    empty_alt = True           # nothing yet in the current alternative
+    while i < n:
+        ch = pat[i]
+        if ch in b"*+?":
+            if not can_quant:
+                return False
+            can_quant = False
+            i += 1
+            continue
+        if ch == 0x28:      # (
+            if pat[i + 1:i + 2] == b"?":
+                return False
+            depth += 1
+            can_quant, empty_alt = False, True
+            i += 1
+        elif ch == 0x29:    # )
+            if depth == 0 or empty_alt:
+                return False
+            depth -= 1
+            can_quant, empty_alt = True, False
+            i += 1
+        elif ch == 0x7c:    # |
+            if empty_alt:
+                return False
+            can_quant, empty_alt = False, True
+            i += 1
+        elif ch == 0x5b:    # [
+            j = i + 1
+            if pat[j:j + 1] == b"^":
+                j += 1
+            k = j
+            while k < n and pat[k] != 0x5d:
+                if pat[k] not in _CLS:
+                    return False
+                k += 1
+            if k >= n or k == j:
+                return False
+            i = k + 1
+            can_quant, empty_alt = True, False
+        elif ch in b"^$":
+            can_quant, empty_alt = False, False
+            i += 1
+        elif ch == 0x2e or ch in _LIT:
+            can_quant, empty_alt = True, False
+            i += 1
+        else:
+            return False
+    return depth == 0 and not empty_alt
+
+
+def parse_formula(formula):
+    """Calculus::Parse's split: separator = first byte that is no lower-case letter"""
+    for i, ch in enumerate(formula):
+        if not 97 <= ch <= 122:
+            return formula.split(formula[i:i + 1])
+    return None
+
+
+def ref_matches(kind, args, spelling):
+    """True / False = the rule does / does not match the spelling under the reference reading; None = not evaluated
+    (outside the fragment)"""
+    if not args or not spelling or any(x >= 0x80 for x in spelling):
+        return None
+    if kind == "xlit":
+        if len(args) < 3 or any(x >= 0x80 for x in args[1] + args[2]):
+            return None
+        return any(x in args[1] for x in spelling)
+    if kind not in ("erase", "xform", "derive", "fuzz", "abbrev") or len(args) < 2:
+        return None
+    pat = args[1]
+    if pat not in _re_cache:
+        rx = None
+        if safe_regex(pat):
+            try:
+                rx = re.compile(pat)
+            except re.error:
+                rx = None
+        _re_cache[pat] = rx
+    rx = _re_cache[pat]
+    if rx is None:
+        return None
+    if kind == "erase":
+        return rx.fullmatch(spelling) is not None
+    return rx.search(spelling) is not None
+
+
 def monitor(prim):
     """Evaluate the property clauses on the implementation's observations of one or more cases.
     -> (list of (signature, detail), stats)"""
@@ -275,6 +374,7 @@ def monitor(prim):
     syl, cur, step, keys, script_for_prism, merges = [], None, None, None, None, False
     threw, apply_loaded = False, False
     expand_seen = {}
+    ref_bad = None
     for op, obs in prim:
         a = op.split(" ")
         if obs in ("bad-op",):
@@ -301,6 +401,21 @@ def monitor(prim):
                 stats["applied_rounds"] += 1
             old = dict(step)
             newd = dict(new)
+            args = parse_formula(unhx(a[1]))
+            # the recorded outcome of Calculation::Apply against the reference reading of "matches"
+            for k, o in rows.items():
+                if o not in ("0", "1"):
+                    continue
+                rm = ref_matches(kind, args, k)
+                if rm is None:
+                    continue
+                stats["ref_outcomes"] = stats.get("ref_outcomes", 0) + 1
+                if kind == "erase" and rm != (o == "1") or kind != "erase" and o == "1" and not rm:
+                    stats["ref_disagree"] = stats.get("ref_disagree", 0) + 1
+                    if ref_bad is None:
+                        ref_bad = {"rule": unhx(a[1]).decode("latin-1"), "spelling": hx(k), "applied": o == "1", "reference_matches": rm}
+                if kind == "erase" and not rm and _re_cache[args[1]].search(k):
+                    stats["erase_contains_not_whole"] = stats.get("erase_contains_not_whole", 0) + 1   # match != search here
             if kind in NONDELETING:
                 for k, vec in old.items():
                     if k not in newd:
@@ -315,6 +430,10 @@ def monitor(prim):
                 own_after = y in newd and any(x[0] == y for x in newd[y])
                 if own_before and not own_after and not (kind in DELETING and rows.get(y) == "1"):
                     v.append(("C09:algebra:own-name", {"clause": "syllable %r lost its own spelling in a round where no replacing/erasing rule matched it (rule kind %s, outcome on it %s)" % (y, kind, rows.get(y)), "syllable": hx(y), "kind": kind}))
+                    break
+                if own_before and not own_after and ref_matches(kind, args, y) is False:
+                    how = "does not match the whole spelling (it only occurs inside it)" if kind == "erase" and re.search(args[1], y) else "does not match it"
+                    v.append(("C09:algebra:own-name", {"clause": "syllable %r lost its own spelling to the %s rule %r whose pattern %s" % (y, kind, unhx(a[1]).decode("latin-1"), how), "syllable": hx(y), "kind": kind}))
                     break
             # the round as a relation (Script::Merge: type = min, credibility = max over everything that lands on (spelling, syllable))
             if kind in NONDELETING + DELETING and f.get("round") == "ok":
@@ -451,6 +570,7 @@ def monitor(prim):
                 want = sorted((x[0], x[1], x[2]) for x in script_for_prism[i][1])
                 if have != want:
                     v.append(("C09:prism:spelling", {"clause": "spelling %r: prism gives %s, spelling table has %s" % (keys[i], have, want), "id": i, "spelling": hx(keys[i])}))
+    stats["ref_bad"] = ref_bad
     return v, stats
 
 
@@ -549,7 +669,9 @@ def run(c):
     o_fail, mismatches, san = {}, [], []
     foreign_crashes = 0
     nontrivial, seen_hash = set(), set()
-    totals = {"rounds": 0, "applied_rounds": 0, "merged_entries": 0, "queries": 0, "compiles": 0, "compiles_refused_empty_table": 0, "table_build_failures": 0}
+    totals = {"rounds": 0, "applied_rounds": 0, "merged_entries": 0, "queries": 0, "compiles": 0, "compiles_refused_empty_table": 0, "table_build_failures": 0,
+              "ref_outcomes": 0, "ref_disagree": 0, "erase_contains_not_whole": 0}
+    ref_bad = None
     samples = []
     B = 50 if quick else 200
     for b0 in range(0, len(cases), B):
@@ -586,6 +708,8 @@ def run(c):
             for k in totals:
                 totals[k] += st.get(k, 0)
             src = by_case.get(cp[0][0])
+            if st.get("ref_bad") and ref_bad is None and src is not None:
+                ref_bad = (src, st["ref_bad"])
             h = hashlib.sha256("\n".join(src[1:] if src else []).encode()).hexdigest()
             if st["nontrivial"] and h not in seen_hash:
                 nontrivial.add(h)
@@ -627,6 +751,14 @@ def run(c):
                  "itself holds on the implementation's outputs" % (a, len(mismatches)),
                  {"kind": "correspondence", "ops": small, "readable": readable(small), "first": mm2,
                   "broken": "correspondence driver_c09 vs c09_harness"}, no_input=True)
+    if ref_bad and not o_fail:
+        src, rb = ref_bad
+        c.report("C09:reference:" + re.match(r"[a-z]*", rb["rule"]).group(0),
+                 "Calculation::Apply %s the spelling %r under rule %r, the reference reading of the pattern says it %s (%d such outcomes); no "
+                 "clause of the property is violated by the tables seen" % ("applied to" if rb["applied"] else "did not apply to", unhx(rb["spelling"]),
+                 rb["rule"], "matches" if rb["reference_matches"] else "does not match", totals["ref_disagree"]),
+                 {"kind": "correspondence", "ops": src, "readable": readable(src), "first": rb,
+                  "broken": "reference reading of regex_match / regex_replace vs recorded Calculation::Apply outcomes"}, no_input=True)
     if not audit["ok"] and not o_fail:
         c.report("C09:proof", "proof obligation no longer checks: %s" % "; ".join("%s: %s" % f for f in audit["failures"])[:600],
                  {"kind": "proof", "broken_theorems": audit["failures"], "lean_log": audit["log"][-3000:]}, no_input=True)
@@ -650,6 +782,8 @@ def run(c):
         "merged_or_derived_entries": totals["merged_entries"], "prism_queries": totals["queries"],
         "dict_compiler_runs": totals["compiles"], "dict_compiler_refused_empty_table": totals["compiles_refused_empty_table"],
         "table_build_failures_not_c09": totals["table_build_failures"] + foreign_crashes,
+        "rule_outcomes_checked_against_reference_regex": totals["ref_outcomes"], "reference_regex_disagreements": totals["ref_disagree"],
+        "erase_outcomes_where_match_differs_from_search": totals["erase_contains_not_whole"],
         "correspondence_mismatches": len(mismatches), "impl_monitor_failures": len(o_fail), "sanitizer_aborts": len(san),
         "source_hash": vlib.source_hash(SRC_FILES), "proof_failures": audit["failures"],
     })
